@@ -127,7 +127,7 @@ REGISTRY = {
         "assumptions": COMMON_ASSUMPTIONS,
     },
     "C19": {
-        "rules": [opalgebra.rule_scale_substitution, opalgebra.rule_jw_string_span, opalgebra.rule_sector_canonical_order, opalgebra.rule_builder_invalidate, opalgebra.rule_transform_pipeline, opalgebra.rule_blocked_per_call, opalgebra.rule_cyclic_site_wrap, symmetry.rule_symmetry_dispatch, symmetry.rule_symmetry_strings, threads.rule_stride_siblings],
+        "rules": [opalgebra.rule_scale_substitution, opalgebra.rule_jw_string_span, opalgebra.rule_sector_canonical_order, opalgebra.rule_builder_invalidate, opalgebra.rule_transform_pipeline, opalgebra.rule_blocked_per_call, opalgebra.rule_cyclic_site_wrap, opalgebra.rule_product_order, symmetry.rule_symmetry_dispatch, symmetry.rule_symmetry_strings, threads.rule_stride_siblings],
         "explanation": (
             "static (decision-table extraction + sibling comparison): decides that every symmetry dispatcher handles exactly "
             "the vocabulary {None,Z2,U1,U1U1} / {0,1,2,3}, rejects anything else, unpacks a sector of the right arity and "
